@@ -62,6 +62,44 @@ template<typename C> static void recreateEmpty(C& c) { c.~C(); ::new (static_cas
 template<typename C> static void recreateCopy(C& c, const C& o) { c.~C(); ::new (static_cast<void*>(&c)) C(o); }
 template<typename C> static void recreateMove(C& c, C& o) { c.~C(); ::new (static_cast<void*>(&c)) C(std::move(o)); recreateEmpty(o); }
 
+// c is destroyed and constructed anew from a range (iterKind 0 random access, 1 single-pass by reference, 2 single-pass by value;
+// form 0 (f, l), 1 with the second constructor argument, 2 with allocator, 3 both) or from an initializer list
+template<typename C, typename V, typename Arg2>
+static void constructRange(C& c, const std::vector<V>& src, unsigned iterKind, unsigned form, const Arg2& arg2)
+{
+	typedef typename C::allocator_type A;
+	auto build = [&](auto f, auto l) {
+		c.~C();
+		void* p = static_cast<void*>(&c);
+		switch (form % 4) {
+		case 0: ::new (p) C(f, l); break;
+		case 1: ::new (p) C(f, l, arg2); break;
+		case 2: ::new (p) C(f, l, arg2, A()); break;
+		default: ::new (p) C(f, l, arg2, A()); break;
+		}
+	};
+	switch (iterKind % 3) {
+	case 0: build(src.begin(), src.end()); break;
+	case 1: build(InputIt<V>(src, 0), InputIt<V>(src, src.size())); break;
+	default: build(InputIt<V, true>(src, 0), InputIt<V, true>(src, src.size())); break;
+	}
+}
+template<typename C, typename V, typename Arg2>
+static void constructList(C& c, const std::vector<V>& ys, unsigned form, const Arg2& arg2)
+{
+	typedef typename C::allocator_type A;
+	c.~C();
+	void* p = static_cast<void*>(&c);
+#define VF_CL(IL) switch (form % 3) { case 0: ::new (p) C(std::initializer_list<V> IL); break; case 1: ::new (p) C(std::initializer_list<V> IL, arg2); break; default: ::new (p) C(std::initializer_list<V> IL, arg2, A()); break; }
+	switch (ys.size()) {
+	case 0: VF_CL({}) break;
+	case 1: VF_CL({ ys[0] }) break;
+	case 2: VF_CL(({ ys[0], ys[1] })) break;
+	default: VF_CL(({ ys[0], ys[1], ys[2] })) break;
+	}
+#undef VF_CL
+}
+
 template<typename C, typename = void> struct HasContains : std::false_type {};
 template<typename C> struct HasContains<C, decltype((void)std::declval<const C&>().contains(std::declval<const typename C::key_type&>()))> : std::true_type {};
 
@@ -252,6 +290,20 @@ struct HO {
 	static std::string cmp(const C& a, const C& b) {
 		return fmt("c=%d %d %d %d %d %d", (int)(a == b), (int)(a != b), (int)(a < b), (int)(a <= b), (int)(a > b), (int)(a >= b));
 	}
+	// rbegin() … rend(), through the non-const / const / c-prefixed members
+	static std::string rcontents(C& c, unsigned how) {
+		const C& cc = c;
+		std::vector<P> v;
+		switch (how % 3) {
+		case 0: for (auto it = c.rbegin(); it != c.rend(); ++it) v.push_back(E::get(it)); break;
+		case 1: for (auto it = cc.rbegin(); it != cc.rend(); ++it) v.push_back(E::get(it)); break;
+		default: for (auto it = c.crbegin(); it != c.crend(); ++it) v.push_back(E::get(it)); break;
+		}
+		return itemsStr(v);
+	}
+	static std::vector<typename E::value> values(const std::vector<P>& ys) { std::vector<typename E::value> src; for (auto& p : ys) src.push_back(E::make(p.first, p.second)); return src; }
+	static std::string crange(C& c, const std::vector<P>& ys, unsigned ik, unsigned form) { constructRange(c, values(ys), ik, form, typename C::key_compare()); return "ok"; }
+	static std::string clist(C& c, const std::vector<P>& ys, unsigned form) { constructList(c, values(ys), form, typename C::key_compare()); return "ok"; }
 };
 
 template<typename M, typename S, bool isMap, bool isMulti>
@@ -298,7 +350,8 @@ static void runOrderedHist(Ctx& c, Rng& rng, const char* kind, unsigned runs, un
 				}
 			};
 			auto someItems = [&]() { std::vector<P> ys; size_t cnt = (size_t)rng.below(4); for (size_t i = 0; i < cnt; ++i) ys.push_back(P(kg.any(), nextTag++)); return ys; };
-			unsigned op = (unsigned)rng.below(110);
+			unsigned op = (unsigned)rng.below(113);
+			if (op >= 110) op = 108;	// reverse traversal / construction from a range or list
 			if (grow) op = (unsigned)rng.below(34);
 			else if (n > target + 30 && op < 40) op = 62 + op % 12;
 			unsigned sp = (unsigned)rng.below(60); bool rk = rng.chance(1, 2), nc = rng.chance(1, 2);
@@ -373,6 +426,14 @@ static void runOrderedHist(Ctx& c, Rng& rng, const char* kind, unsigned runs, un
 			else if (op < 106) { if (rng.chance(1, 3)) { m.clear(); st.clear(); R.step(fmt("clear %s", cn), "ok", "ok"); } }
 			else if (op < 107) R.step(fmt("size %s", cn), fmt("n=%zu", m.size()), fmt("n=%zu", st.size()));
 			else if (op < 108) R.step(fmt("empty %s", cn), fmt("f=%d", (int)m.empty()), fmt("f=%d", (int)st.empty()));
+			else if (op < 109) {
+				switch (rng.below(4)) {
+				case 0: { unsigned how = (unsigned)rng.below(3); R.step(fmt("rdump %s", cn), OM::rcontents(m, how), OS::rcontents(st, how)); break; }
+				case 1: { auto ys = someItems(); if (rng.chance(1, 3)) for (int i = 0; i < 20; ++i) ys.push_back(P(kg.any(), nextTag++)); unsigned ik = (unsigned)rng.below(3), form = (unsigned)rng.below(4); R.step(fmt("crange %s%s", cn, listArg(ys).c_str()), OM::crange(m, ys, ik, form), OS::crange(st, ys, ik, form)); break; }
+				case 2: { auto ys = someItems(); unsigned form = (unsigned)rng.below(3); R.step(fmt("clist %s%s", cn, listArg(ys).c_str()), OM::clist(m, ys, form), OS::clist(st, ys, form)); break; }
+				default: R.step(fmt("dump %s", cn), itemsStr(OM::contents(m)), itemsStr(OS::contents(st))); break;
+				}
+			}
 			else R.step(fmt("dump %s", cn), itemsStr(OM::contents(m)), itemsStr(OS::contents(st)));
 			if (step % 16 == 15 && !R.diverged) {
 				R.step("dump a", itemsStr(OM::contents(ma)), itemsStr(OS::contents(sa)));
@@ -499,7 +560,44 @@ static void runVectorHist(Ctx& c, Rng& rng, unsigned runs, unsigned opsPerRun)
 			else if (op < 86) { m = std::move(mo); st = std::move(so); recreateEmpty(mo); recreateEmpty(so); R.step(fmt("move %s", cn), "ok", "ok"); }
 			else if (op < 87) { recreateCopy(m, mo); recreateCopy(st, so); R.step(fmt("ccopy %s", cn), "ok", "ok"); }
 			else if (op < 88) { recreateMove(m, mo); recreateMove(st, so); R.step(fmt("cmove %s", cn), "ok", "ok"); }
-			else if (op < 94) R.step("cmp", vecCmpStr(ma, mb), vecCmpStr(sa, sb));
+			else if (op < 92) R.step("cmp", vecCmpStr(ma, mb), vecCmpStr(sa, sb));
+			else if (op < 96) {
+				switch (rng.below(5)) {
+				case 0: {
+					const M& cm = m; const S& cs = st; std::vector<int> a, b;
+					switch (rng.below(3)) {
+					case 0: for (auto it = m.rbegin(); it != m.rend(); ++it) a.push_back(*it); for (auto it = st.rbegin(); it != st.rend(); ++it) b.push_back(*it); break;
+					case 1: for (auto it = cm.rbegin(); it != cm.rend(); ++it) a.push_back(*it); for (auto it = cs.rbegin(); it != cs.rend(); ++it) b.push_back(*it); break;
+					default: for (auto it = m.crbegin(); it != m.crend(); ++it) a.push_back(*it); for (auto it = st.crbegin(); it != st.crend(); ++it) b.push_back(*it); break;
+					}
+					R.step(fmt("rdump %s", cn), valsStr(a), valsStr(b)); break;
+				}
+				case 1: {
+					size_t k = (size_t)rng.below(7);
+					m.~M(); st.~S();
+					if (v == 0 && rng.chance(1, 2)) { ::new (static_cast<void*>(&m)) M(k); ::new (static_cast<void*>(&st)) S(k); }
+					else if (rng.chance(1, 2)) { ::new (static_cast<void*>(&m)) M(k, v); ::new (static_cast<void*>(&st)) S(k, v); }
+					else { ::new (static_cast<void*>(&m)) M(k, v, std::allocator<int>()); ::new (static_cast<void*>(&st)) S(k, v, std::allocator<int>()); }
+					R.step(fmt("cn %s %zu %d", cn, k, v), "ok", "ok"); break;
+				}
+				case 2: {
+					size_t cnt = (size_t)rng.below(4); if (rng.chance(1, 4)) cnt += 20;
+					std::vector<int> src; std::string arg; for (size_t j = 0; j < cnt; ++j) { src.push_back((int)rng.below(50)); arg += fmt(" %d", src.back()); }
+					m.~M(); st.~S();
+					void* pm = static_cast<void*>(&m); void* ps = static_cast<void*>(&st);
+					switch (rng.below(cnt == 2 ? 5 : 4)) {
+					case 0: ::new (pm) M(src.begin(), src.end()); ::new (ps) S(src.begin(), src.end()); break;
+					case 1: { std::forward_list<int> fl(src.begin(), src.end()); ::new (pm) M(fl.begin(), fl.end()); ::new (ps) S(fl.begin(), fl.end()); break; }
+					case 2: ::new (pm) M(InputIt<int>(src, 0), InputIt<int>(src, src.size())); ::new (ps) S(InputIt<int>(src, 0), InputIt<int>(src, src.size())); break;
+					case 3: ::new (pm) M(InputIt<int, true>(src, 0), InputIt<int, true>(src, src.size()), std::allocator<int>()); ::new (ps) S(InputIt<int, true>(src, 0), InputIt<int, true>(src, src.size()), std::allocator<int>()); break;
+					default: ::new (pm) M({ src[0], src[1] }); ::new (ps) S({ src[0], src[1] }); break;
+					}
+					R.step(fmt("crange %s%s", cn, arg.c_str()), "ok", "ok"); break;
+				}
+				case 3: { size_t k = (size_t)rng.below(n + 40); m.reserve(k); st.reserve(k); if (m.capacity() < k) c.fail("C06 hist/vec reserve(%zu): capacity() %zu", k, (size_t)m.capacity()); R.step(fmt("reserve %s %zu", cn, k), "ok", "ok"); break; }
+				default: { m.shrink_to_fit(); st.shrink_to_fit(); if (m.capacity() < m.size()) c.fail("C06 hist/vec shrink_to_fit: capacity() < size()"); R.step(fmt("shrink %s", cn), "ok", "ok"); break; }
+				}
+			}
 			else R.step(fmt("dump %s", cn), valsStr(std::vector<int>(m.begin(), m.end())), valsStr(st));
 		}
 		if (R.diverged) { R.comment("run abandoned after a disagreement"); continue; }
@@ -725,6 +823,10 @@ struct HU {
 		return fmt("e=%s %d node=%s", el(c, it).c_str(), (int)(c.size() != before), nodeStr(n).c_str());
 	}
 	static std::string cmp(const C& a, const C& b) { return fmt("c=%d %d", (int)(a == b), (int)(a != b)); }
+	static std::vector<value> values(const std::vector<P>& ys) { std::vector<value> src; for (auto& p : ys) src.push_back(make(p.first, p.second)); return src; }
+	// the second constructor argument of the unordered containers is the bucket count
+	static std::string crange(C& c, const std::vector<P>& ys, unsigned ik, unsigned form, size_t bn) { constructRange(c, values(ys), ik, form, bn); return "ok"; }
+	static std::string clist(C& c, const std::vector<P>& ys, unsigned form, size_t bn) { constructList(c, values(ys), form, bn); return "ok"; }
 };
 
 template<typename M, typename S, UKind kind>
@@ -761,7 +863,8 @@ static void runUnorderedHist(Ctx& c, Rng& rng, const char* kindName, unsigned ru
 			int v = nextTag++;
 			auto presentKey = [&](S& cont) -> int { auto lay = OS::sorted(cont); return lay[rng.below(lay.size())].first; };
 			auto someItems = [&]() { std::vector<P> ys; size_t cnt = (size_t)rng.below(4); for (size_t i = 0; i < cnt; ++i) ys.push_back(P(kg.any(), nextTag++)); return ys; };
-			unsigned op = (unsigned)rng.below(110);
+			unsigned op = (unsigned)rng.below(114);
+			if (op >= 110) op = 108;	// construction from a range / list, reserve, rehash, max_load_factor
 			if (grow) op = (unsigned)rng.below(26);
 			else if (n > target + 30 && op < 36) op = 52 + op % 16;
 			unsigned sp = (unsigned)rng.below(60); bool rk = rng.chance(1, 2), nc = rng.chance(1, 2);
@@ -832,6 +935,22 @@ static void runUnorderedHist(Ctx& c, Rng& rng, const char* kindName, unsigned ru
 			else if (op < 106) { if (rng.chance(1, 3)) { m.clear(); st.clear(); R.step(fmt("clear %s", cn), "ok", "ok"); } }
 			else if (op < 107) R.step(fmt("size %s", cn), fmt("n=%zu", m.size()), fmt("n=%zu", st.size()));
 			else if (op < 108) R.step(fmt("empty %s", cn), fmt("f=%d", (int)m.empty()), fmt("f=%d", (int)st.empty()));
+			else if (op < 109) {
+				switch (rng.below(6)) {
+				case 0: { auto ys = someItems(); if (rng.chance(1, 3)) for (int i = 0; i < 20; ++i) ys.push_back(P(kg.any(), nextTag++)); unsigned ik = (unsigned)rng.below(3), form = (unsigned)rng.below(4); size_t bn = (size_t)rng.below(50); R.step(fmt("crange %s%s", cn, listArg(ys).c_str()), OM::crange(m, ys, ik, form, bn), OS::crange(st, ys, ik, form, bn)); break; }
+				case 1: { auto ys = someItems(); unsigned form = (unsigned)rng.below(3); size_t bn = (size_t)rng.below(50); R.step(fmt("clist %s%s", cn, listArg(ys).c_str()), OM::clist(m, ys, form, bn), OS::clist(st, ys, form, bn)); break; }
+				case 2: { size_t k = (size_t)rng.below(n + 60); m.reserve(k); st.reserve(k); R.step(fmt("reserve %s %zu", cn, k), "ok", "ok"); break; }
+				case 3: { size_t k = (size_t)rng.below(2 * n + 60); m.rehash(k); st.rehash(k); if (m.bucket_count() < k) c.fail("C06 hist/%s rehash(%zu): bucket_count() = %zu", tag.c_str(), k, (size_t)m.bucket_count()); R.step(fmt("rehash %s %zu", cn, k), "ok", "ok"); break; }
+				case 4: {
+					float z = 0.25f + 0.25f * (float)rng.below(8);
+					if (z > (float)M::nested_container_type::bucketMaxItemCount) z = (float)M::nested_container_type::bucketMaxItemCount;
+					m.max_load_factor(z); st.max_load_factor(z);
+					if (m.max_load_factor() != z) c.fail("C06 hist/%s max_load_factor(%g): max_load_factor() = %g", tag.c_str(), (double)z, (double)m.max_load_factor());
+					R.step(fmt("mlf %s", cn), "ok", "ok"); break;
+				}
+				default: R.step(fmt("dump %s", cn), itemsStr(OM::sorted(m)), itemsStr(OS::sorted(st))); break;
+				}
+			}
 			else R.step(fmt("dump %s", cn), itemsStr(OM::sorted(m)), itemsStr(OS::sorted(st)));
 			if (step % 16 == 15 && !R.diverged) {
 				R.step("dump a", itemsStr(OM::sorted(ma)), itemsStr(OS::sorted(sa)));
@@ -993,6 +1112,9 @@ struct HM {
 		return fmt("n=%zu", n);
 	}
 	static std::string cmp(const C& a, const C& b) { return fmt("c=%d %d", (int)(a == b), (int)(a != b)); }
+	static std::vector<std::pair<const int, int>> values(const std::vector<P>& ys) { std::vector<std::pair<const int, int>> src; for (auto& p : ys) src.emplace_back(p.first, p.second); return src; }
+	static std::string crange(C& c, const std::vector<P>& ys, unsigned ik, unsigned form, size_t bn) { constructRange(c, values(ys), ik, form, bn); return "ok"; }
+	static std::string clist(C& c, const std::vector<P>& ys, unsigned form, size_t bn) { constructList(c, values(ys), form, bn); return "ok"; }
 };
 
 template<typename M, typename S>
@@ -1090,6 +1212,8 @@ static void runMultimapHist(Ctx& c, Rng& rng, unsigned runs, unsigned opsPerRun)
 			else if (op < 89) { if (rng.chance(1, 3)) { m.clear(); st.clear(); R.step(fmt("clear %s", cn), "ok", "ok"); } }
 			else if (op < 91) R.step(fmt("size %s", cn), fmt("n=%zu", m.size()), fmt("n=%zu", st.size()));
 			else if (op < 93) R.step(fmt("empty %s", cn), fmt("f=%d", (int)m.empty()), fmt("f=%d", (int)st.empty()));
+			else if (op < 95) { auto ys = someItems(); if (rng.chance(1, 3)) for (int i = 0; i < 20; ++i) ys.push_back(P(kg.any(), nextTag++)); unsigned ik = (unsigned)rng.below(3), form = (unsigned)rng.below(4); size_t bn = (size_t)rng.below(50); R.step(fmt("crange %s%s", cn, listArg(ys).c_str()), OM::crange(m, ys, ik, form, bn), OS::crange(st, ys, ik, form, bn)); }
+			else if (op < 96) { auto ys = someItems(); unsigned form = (unsigned)rng.below(3); size_t bn = (size_t)rng.below(50); R.step(fmt("clist %s%s", cn, listArg(ys).c_str()), OM::clist(m, ys, form, bn), OS::clist(st, ys, form, bn)); }
 			else R.step(fmt("dump %s", cn), itemsStr(OM::sorted(m)), itemsStr(OS::sorted(st)));
 			if (step % 16 == 15 && !R.diverged) {
 				R.step("dump a", itemsStr(OM::sorted(ma)), itemsStr(OS::sorted(sa)));
